@@ -147,14 +147,15 @@ def fullStep (ro : Rollout) (s : Sub) (wl : WL) : Bool :=
   | some st => ro.style = .canary && stepHasTraffic st && decide (scaledV st.replicas wl.replicas true ≥ wl.replicas)
   | none => false
 
-/-- **C04 (stable half)** — a canary step that replaces every stable pod leaves `StepInit` (the batch is
-    handed to the BatchRelease) only with the stable Service un-pinned: no request routed through
+/-- **C04 (stable half)** — a canary step that replaces every stable pod leaves `StepInit` towards the upgrade
+    (the batch is handed to the BatchRelease) only with the stable Service un-pinned: no request routed through
     the stable Service may end at a selector that matches no pod. -/
 def fullStepUnpinsFirst (w : World) (r : StepResult) : Bool :=
   match w.ro.sub, r.w.ro.sub, w.wl with
   | some s, some s', some wl =>
     if inRollingNow w.ro ∧ r.w.ro.reason = .inRolling ∧ w.ro.hasTraffic ∧ wl.consistent ∧ 1 ≤ s.curIdx ∧
-       s.state = .init ∧ s'.state ≠ .init ∧ s'.curIdx = s.curIdx ∧ fullStep w.ro s wl then
+       s.state = .init ∧ (s'.state = .upgrade ∨ s'.state = .trafficRouting ∨ s'.state = .metricsAnalysis) ∧
+       s'.curIdx = s.curIdx ∧ fullStep w.ro s wl then
       !r.w.net.stableExists || r.w.net.stableSel.getD "" == ""
     else true
   | _, _, _ => true
